@@ -91,7 +91,7 @@ func waitEntered(g *gateCtl, d time.Duration) (string, bool) {
 
 // c06single runs one operation sequence deterministically. ops: 'A' append event, 'W' raw write, 'S' step.
 func c06single(w *W, y *yielder, policy string, cap, prefill int, ops string, tagN int) (string, string) {
-	c := asyncCase{Policy: policy, Buf: cap, Appender: "gated", ViaCfg: tagN%4 == 3} // one case in four is built by Refresh from a configuration map
+	c := asyncCase{Policy: policy, Buf: cap, Appender: "gated", ViaCfg: (tagN/13)%4 == 3} // one case in four is built by Refresh from a configuration map
 	rec.take()
 	l, sinkName, stop, err := buildAsync(c, "c06tag")
 	if err != nil {
